@@ -599,6 +599,12 @@ pub fn violation_cases() -> Vec<(&'static str, &'static str, Vec<Vec<Step>>, Vec
     // when Gen then writes again, the recorded reader no longer depends on it
     ("C05", "C05.bounded.hidden_write_after_an_intermediate_task_dropped_its_require_aborts", vec![vec![Require(1, 1), Read(2, 0)], vec![Read(0, 1), IfOdd(vec![Require(2, 1)], vec![])], vec![Read(1, 0), Write(2, 1)]],
        vec![Act::Set(0, 2), Act::Set(1, 0), Act::TopDown(0), Act::Set(0, 1), Act::TopDown(1), Act::Set(1, 1), Act::TopDown(2)], "Hidden dependency"),
+    // the generator of resource 2 changes from T1 to T3 between two builds; a task that then reads it without requiring T3 is diagnosed
+    ("C05", "C05.bounded.hidden_read_after_the_writer_changed_aborts", vec![vec![Require(1, 1), Require(3, 1)], vec![Read(0, 1), IfOdd(vec![Write(2, 1)], vec![])], vec![Read(2, 0)], vec![Read(0, 1), IfOdd(vec![], vec![Write(2, 1)])]],
+       vec![Act::Set(0, 0), Act::TopDown(0), Act::Set(0, 1), Act::TopDown(0), Act::TopDown(2)], "Hidden dependency"),
+    // a task that requires the generator and READS the generated resource (legal) and then writes it: still an overlapping write
+    ("C06", "C06.bounded.overlap_by_a_task_that_already_reads_the_resource_aborts", vec![vec![Require(1, 1), Read(2, 0), Write(2, 2)], vec![Write(2, 1)]], vec![Act::TopDown(0)], "Overlapping write"),
+    ("C06", "C06.bounded.declared_overlap_by_a_task_that_already_reads_the_resource_aborts", vec![vec![Require(1, 1), Read(2, 0), WrittenTo(2, 2)], vec![Write(2, 1)]], vec![Act::TopDown(0)], "Overlapping write"),
     ("C06", "C06.bounded.overlapping_write_aborts", vec![vec![Require(1, 1), Require(2, 1)], vec![Write(2, 1)], vec![Write(2, 2)]], vec![Act::TopDown(0)], "Overlapping write"),
     ("C06", "C06.bounded.overlapping_declared_write_aborts", vec![vec![Require(1, 1), Require(2, 1)], vec![Write(2, 1)], vec![WrittenTo(2, 2)]], vec![Act::TopDown(0)], "Overlapping write"),
     ("C06", "C06.bounded.overlap_with_requirer_that_wrote_first_aborts", vec![vec![Write(2, 1), Require(1, 1)], vec![Write(2, 2)]], vec![Act::TopDown(0)], "Overlapping write"),
